@@ -893,6 +893,13 @@ func runC09(c *ev.Ctx) {
 		for k := 0; k < nSeeded; k++ {
 			offs[int64(r.Intn(int(need)))] = true
 		}
+		for _, unit := range []int64{4096, 65536, 1 << 20, 1000000} {
+			for k := 0; k < 4; k++ {
+				if m := unit * int64(1+r.Intn(int(need/unit)+1)); m < need {
+					offs[m] = true
+				}
+			}
+		}
 		var ol []int64
 		for o := range offs {
 			if o >= 0 && o < need {
@@ -958,6 +965,43 @@ func runC09(c *ev.Ctx) {
 					id++
 					scns = append(scns, Scn{ID: id, WF: "Single", NumByte: nb, Stream: Stream{Kind: "prng", Seed: r.U64(), Tail: "random", Extra: 64}, Chunk: mon.ChunkPlan{Kind: []string{"whole", "fixed"}[id%2], Size: 7},
 						Fault: &mon.FaultPlan{Offset: o, Kind: k.k, Sticky: k.sticky}, Note: fmt.Sprintf("numByte=%d fault@%d %s sticky=%v", nb, o, k.k, k.sticky)})
+				}
+			}
+		}
+	}
+	// very large single-shot requests, failing at round absolute positions (multiples of 10^6, 2^20,
+	// 4*10^6, 2^22: natural block sizes of chunked readers) and next to them
+	{
+		r := gen.NewRng(gen.Mix(seed, 911))
+		sizes := []int{8000000, 1<<23 + 5}
+		if c.Thorough() {
+			sizes = append(sizes, 5000000, 1<<25+12345, 40<<20)
+		}
+		for _, nb := range sizes {
+			offs := map[int64]bool{}
+			for _, unit := range []int64{1000000, 1 << 20, 4000000, 1 << 22} {
+				for m := unit; m < int64(nb); m += unit {
+					offs[m] = true
+					if r.Intn(4) == 0 {
+						offs[m-1] = true
+						offs[m+1] = true
+					}
+				}
+			}
+			var ol []int64
+			for o := range offs {
+				ol = append(ol, o)
+			}
+			sort.Slice(ol, func(a, b int) bool { return ol[a] < ol[b] })
+			for oi, o := range ol {
+				for ki := 0; ki < 3; ki++ { // eof / ueof / custom, sticky
+					if o%1000000 != 0 && o%(1<<20) != 0 && ki != oi%3 {
+						continue // neighbours of the round positions: one kind each
+					}
+					k := kinds[ki]
+					id++
+					scns = append(scns, Scn{ID: id, WF: "Single", NumByte: nb, Stream: Stream{Kind: "prng", Seed: r.U64(), Tail: "random", Extra: 64}, Chunk: mon.ChunkPlan{Kind: []string{"whole", "fixed"}[(oi+ki)%2], Size: 65536},
+						Fault: &mon.FaultPlan{Offset: o, Kind: k.k, Sticky: true}, Note: fmt.Sprintf("numByte=%d fault@%d %s sticky=true", nb, o, k.k)})
 				}
 			}
 		}
@@ -1191,6 +1235,25 @@ func runC10(c *ev.Ctx) {
 				}
 				singles = append(singles, ids)
 			}
+		}
+	}
+	// very large single-shot requests under short reads (sizes around 2^23 and 2^25, where readers and
+	// entropy sources start to split requests)
+	{
+		r := gen.NewRng(gen.Mix(seed, 1013))
+		sizes := []int{8000000, 1<<25 - 1, 1 << 25, 1<<25 + 12345}
+		if c.Thorough() {
+			sizes = append(sizes, 5000000, 40<<20, 1<<26+1)
+		}
+		for _, nb := range sizes {
+			st := Stream{Kind: "prng", Seed: r.U64(), Tail: "random", Extra: 4096}
+			var ids []int
+			for _, pl := range []mon.ChunkPlan{{Kind: "whole"}, {Kind: "fixed", Size: 65536}, {Kind: "fixed", Size: 4096}, {Kind: "fixed", Size: 509}, {Kind: "random", Seed: r.U64()}, {Kind: "fixed", Size: nb - 1}} {
+				id++
+				scns = append(scns, Scn{ID: id, WF: "Single", NumByte: nb, Stream: st, Chunk: pl, Note: fmt.Sprintf("numByte=%d plan=%s/%d", nb, pl.Kind, pl.Size)})
+				ids = append(ids, id)
+			}
+			singles = append(singles, ids)
 		}
 	}
 	var plain, race []Scn
@@ -1434,6 +1497,7 @@ func runC14(c *ev.Ctx) {
 		addHeavy("Factory", consts[0xFF], "const 0xff")
 	}
 	// SingleDetect: all-zero / all-one at every admissible length
+	var heavySingles []Scn
 	top := 4096
 	for nb := 16; nb <= top; nb++ {
 		for _, b := range []int{0x00, 0xFF} {
@@ -1441,12 +1505,26 @@ func runC14(c *ev.Ctx) {
 			scns = append(scns, Scn{ID: id, WF: "Single", NumByte: nb, Stream: Stream{Kind: "const", Byte: b, Tail: "none"}, Chunk: mon.ChunkPlan{Kind: "whole"}, Note: fmt.Sprintf("single const 0x%02x numByte=%d", b, nb)})
 		}
 	}
-	for _, nb := range []int{5000, 10240 / 8, 10240/8 + 1, 65536, 125000, 1000000} {
+	hugeNB := []int{200000000, 1 << 28}
+	if c.Thorough() {
+		hugeNB = append(hugeNB, 189812532, 1<<27, 1<<28+1, 300000000)
+	}
+	for _, nb := range hugeNB {
+		for _, b := range []int{0x00, 0xFF} {
+			id++
+			heavySingles = append(heavySingles, Scn{ID: id, WF: "Single", NumByte: nb, Stream: Stream{Kind: "const", Byte: b, Tail: "none"}, Chunk: mon.ChunkPlan{Kind: "whole"}, Note: fmt.Sprintf("single const 0x%02x numByte=%d", b, nb)})
+		}
+	}
+	for _, nb := range []int{5000, 10240 / 8, 10240/8 + 1, 65536, 125000, 1000000, 4000001, 1 << 25} {
 		for _, b := range []int{0x00, 0xFF} {
 			id++
 			scns = append(scns, Scn{ID: id, WF: "Single", NumByte: nb, Stream: Stream{Kind: "const", Byte: b, Tail: "none"}, Chunk: mon.ChunkPlan{Kind: "whole"}, Note: fmt.Sprintf("single const 0x%02x numByte=%d", b, nb)})
 		}
 	}
+	hsch := make(chan map[int]*Res, 1)
+	go func() {
+		hsch <- runScenarios(heavySingles, runOpts{Parallel: 2, PerScn: 30 * time.Second, Label: "c14s"})
+	}()
 	hch := make(chan map[int]*Res, 1)
 	go func() {
 		hch <- runScenarios(heavy, runOpts{Parallel: 8, PerScn: 300 * time.Second, Label: "c14h"})
@@ -1455,7 +1533,10 @@ func runC14(c *ev.Ctx) {
 	for k, v := range <-hch {
 		res[k] = v
 	}
-	all := append(append([]Scn{}, scns...), heavy...)
+	for k, v := range <-hsch {
+		res[k] = v
+	}
+	all := append(append(append([]Scn{}, scns...), heavy...), heavySingles...)
 	for _, sc := range all {
 		r := res[sc.ID]
 		if r == nil {
